@@ -132,6 +132,76 @@ Proof.
   rewrite (H lo) by lia. cbn [negb]. apply IH. intros k Hk. apply H. lia.
 Qed.
 
+Lemma reply_sim m r : Rel m r -> r_lost r = false -> (r_a r <? r_w r) = true ->
+  snd (m_reply m (r_a r)) = snd (r_reply r) /\ Rel (fst (m_reply m (r_a r))) (fst (r_reply r)).
+Proof.
+  intros [Hn Hl Hc (Hle1 & Hle2 & Hle3) Hlive Hdead Hobs Hnobs] El Hlt.
+  destruct (Hlive El) as (Hcur & (len & Hq & Hlen) & Hidle). apply N.ltb_lt in Hlt.
+    assert (Hw : r_w r = r_a r + 1) by lia.
+    unfold m_reply, r_reply, maybe_issue. cbn [m_cur m_q m_lost m_called m_next m_obs m_nobs]. rewrite Hq, Hc.
+    destruct len as [|len].
+    + assert (Hmore : (r_w r <? r_n r) = false) by (apply N.ltb_ge; lia). rewrite Hmore.
+      cbn [seqN fst snd]. split; [reflexivity|]. rel_fields.
+      * first [exact Hn | reflexivity].
+      * reflexivity.
+      * intros j. cbn [memN]. now rewrite Hc.
+      * lia.
+      * intros _. assert (Hx : (r_a r + 1 <? r_w r) = false) by (apply N.ltb_ge; lia). rewrite Hx.
+        split; [reflexivity|]. split; [exists 0%nat; split; [reflexivity|lia]|lia].
+      * absurd_flag.
+      * exact Hobs.
+      * exact Hnobs.
+    + assert (Hmore : (r_w r <? r_n r) = true) by (apply N.ltb_lt; lia). rewrite Hmore.
+      cbn [seqN fst snd]. split; [reflexivity|]. rel_fields.
+      * first [exact Hn | reflexivity].
+      * reflexivity.
+      * intros j. cbn [memN]. now rewrite Hc.
+      * lia.
+      * intros _. assert (Hx : (r_a r + 1 <? r_w r + 1) = true) by (apply N.ltb_lt; lia). rewrite Hx.
+        split; [f_equal; lia|]. split; [exists len; split; [reflexivity|lia]|lia].
+      * absurd_flag.
+      * exact Hobs.
+      * exact Hnobs.
+Qed.
+
+Lemma lose_sim m r : Rel m r -> r_lost r = false ->
+  snd (m_lose m) = snd (r_lose r) /\ Rel (fst (m_lose m)) (fst (r_lose r)).
+Proof.
+  intros [Hn Hl Hc (Hle1 & Hle2 & Hle3) Hlive Hdead Hobs Hnobs] El.
+  destruct (Hlive El) as (Hcur & (len & Hq & Hlen) & Hidle). unfold m_lose, r_lose.
+    set (s0 := {| m_cur := m_cur m; m_q := m_q m; m_called := m_called m; m_lost := true;
+                  m_next := m_next m; m_obs := []; m_nobs := m_nobs m |}).
+    assert (HF0 : FRel (r_a r) (r_w r) s0 [] ([], r_n r, r_res r, r_nw r)).
+    { constructor; cbn [fst snd s0 m_next m_called m_nobs m_lost m_cur m_q]; auto.
+      destruct (N.ltb_spec (r_a r) (r_w r)) as [Hlt|Hge].
+      - exists len. split; [exact Hq|exact Hlen].
+      - assert (Hwa : r_w r = r_a r) by lia. specialize (Hidle Hwa).
+        assert (len = 0%nat) by lia. subst len. split; [exact Hq|]. intros j Hj. lia. }
+    pose proof (tell_fold (r_a r) (r_w r) (m_obs m) s0 [] _ HF0) as HF. rewrite Hobs in HF |- *.
+    destruct (fold_left run_cb (r_watch r) (s0, [])) as [s1 ev1].
+    destruct (fold_left (tell (r_a r <? r_w r)) (r_watch r) ([], r_n r, r_res r, r_nw r)) as [[[ev2 n2] res2] nw2].
+    destruct HF as [Fev Fn Fc Fnw Fl Fcur Fq Fle]. cbn [fst snd] in *. subst ev2.
+    assert (Hout : filter (fun k => negb (memN k (m_called s1)))
+                     ((match m_cur s1 with Some c => [c] | None => [] end) ++ m_q s1)
+                   = unresolved res2 (r_a r) (N.to_nat (n2 - r_a r))).
+    { unfold unresolved. rewrite Fcur. destruct (N.ltb_spec (r_a r) (r_w r)) as [Hlt|Hge].
+      - destruct Fq as (len2 & Hq2 & Hlen2). rewrite Hq2.
+        replace (N.to_nat (n2 - r_a r)) with (S len2) by lia. cbn [seqN app].
+        replace (r_a r + 1) with (r_w r) by lia. now apply filter_ext_called.
+      - destruct Fq as [Hq2 Hall]. rewrite Hq2. cbn [app filter]. symmetry. apply filter_none.
+        intros j Hj. apply Hall. lia. }
+    rewrite Hout. cbn [fst snd]. split; [reflexivity|]. rel_fields.
+    + exact Fn.
+    + reflexivity.
+    + intros j. rewrite !memN_app, Fc. reflexivity.
+    + lia.
+    + absurd_flag.
+    + intros _. split; reflexivity.
+    + reflexivity.
+    + exact Fnw.
+Qed.
+
+
 Lemma step_sim m r o : Rel m r ->
   match m_step m o, r_step r o with
   | Some (m', e1), Some (r', e2) => e1 = e2 /\ Rel m' r'
@@ -139,8 +209,8 @@ Lemma step_sim m r o : Rel m r ->
   | _, _ => False
   end.
 Proof.
-  intros [Hn Hl Hc (Hle1 & Hle2 & Hle3) Hlive Hdead Hobs Hnobs].
-  destruct o as [|k| |b|]; cbn [m_step r_step].
+  intros HR. pose proof HR as [Hn Hl Hc (Hle1 & Hle2 & Hle3) Hlive Hdead Hobs Hnobs].
+  destruct o as [|k| |b| |]; cbn [m_step r_step].
   - (* submit *)
     unfold submit.
     destruct (r_lost r) eqn:El.
@@ -195,33 +265,10 @@ Proof.
     + split; [reflexivity|]. constructor; try assumption. lia.
   - (* reply *)
     rewrite Hl. destruct (r_lost r) eqn:El; [exact I|]. cbn [orb].
-    destruct (Hlive eq_refl) as (Hcur & (len & Hq & Hlen) & Hidle). rewrite Hcur.
-    destruct (N.ltb_spec (r_a r) (r_w r)) as [Hlt|Hge]; cbn [negb]; [|exact I].
-    assert (Hw : r_w r = r_a r + 1) by lia.
-    unfold maybe_issue. cbn [m_cur m_q m_lost m_called m_next m_obs m_nobs]. rewrite Hq, Hc.
-    destruct len as [|len].
-    + assert (Hmore : (r_w r <? r_n r) = false) by (apply N.ltb_ge; lia). rewrite Hmore.
-      cbn [seqN]. split; [reflexivity|]. rel_fields.
-      * first [exact Hn | reflexivity].
-      * reflexivity.
-      * intros j. cbn [memN]. now rewrite Hc.
-      * lia.
-      * intros _. assert (Hx : (r_a r + 1 <? r_w r) = false) by (apply N.ltb_ge; lia). rewrite Hx.
-        split; [reflexivity|]. split; [exists 0%nat; split; [reflexivity|lia]|lia].
-      * absurd_flag.
-      * exact Hobs.
-      * exact Hnobs.
-    + assert (Hmore : (r_w r <? r_n r) = true) by (apply N.ltb_lt; lia). rewrite Hmore.
-      cbn [seqN]. split; [reflexivity|]. rel_fields.
-      * first [exact Hn | reflexivity].
-      * reflexivity.
-      * intros j. cbn [memN]. now rewrite Hc.
-      * lia.
-      * intros _. assert (Hx : (r_a r + 1 <? r_w r + 1) = true) by (apply N.ltb_lt; lia). rewrite Hx.
-        split; [f_equal; lia|]. split; [exists len; split; [reflexivity|lia]|lia].
-      * absurd_flag.
-      * exact Hobs.
-      * exact Hnobs.
+    destruct (Hlive eq_refl) as (Hcur & _). rewrite Hcur.
+    destruct (r_a r <? r_w r) eqn:Hlt; cbn [negb]; [|exact I].
+    destruct (reply_sim m r HR El Hlt) as [He HR'].
+    destruct (m_reply m (r_a r)) as [m' e1], (r_reply r) as [r' e2]. cbn [fst snd] in *. split; assumption.
   - (* a notification request *)
     rewrite Hl. destruct (r_lost r) eqn:El.
     + (* after the loss: told at once; nothing is in flight *)
@@ -266,37 +313,33 @@ Proof.
       * now rewrite Hnobs.
   - (* loss *)
     rewrite Hl. destruct (r_lost r) eqn:El; [exact I|].
-    destruct (Hlive eq_refl) as (Hcur & (len & Hq & Hlen) & Hidle).
-    set (s0 := {| m_cur := m_cur m; m_q := m_q m; m_called := m_called m; m_lost := true;
-                  m_next := m_next m; m_obs := []; m_nobs := m_nobs m |}).
-    assert (HF0 : FRel (r_a r) (r_w r) s0 [] ([], r_n r, r_res r, r_nw r)).
-    { constructor; cbn [fst snd s0 m_next m_called m_nobs m_lost m_cur m_q]; auto.
-      destruct (N.ltb_spec (r_a r) (r_w r)) as [Hlt|Hge].
-      - exists len. split; [exact Hq|exact Hlen].
-      - assert (Hwa : r_w r = r_a r) by lia. specialize (Hidle Hwa).
-        assert (len = 0%nat) by lia. subst len. split; [exact Hq|]. intros j Hj. lia. }
-    pose proof (tell_fold (r_a r) (r_w r) (m_obs m) s0 [] _ HF0) as HF. rewrite Hobs in HF |- *.
-    destruct (fold_left run_cb (r_watch r) (s0, [])) as [s1 ev1].
-    destruct (fold_left (tell (r_a r <? r_w r)) (r_watch r) ([], r_n r, r_res r, r_nw r)) as [[[ev2 n2] res2] nw2].
-    destruct HF as [Fev Fn Fc Fnw Fl Fcur Fq Fle]. cbn [fst snd] in *. subst ev2.
-    assert (Hout : filter (fun k => negb (memN k (m_called s1)))
-                     ((match m_cur s1 with Some c => [c] | None => [] end) ++ m_q s1)
-                   = unresolved res2 (r_a r) (N.to_nat (n2 - r_a r))).
-    { unfold unresolved. rewrite Fcur. destruct (N.ltb_spec (r_a r) (r_w r)) as [Hlt|Hge].
-      - destruct Fq as (len2 & Hq2 & Hlen2). rewrite Hq2.
-        replace (N.to_nat (n2 - r_a r)) with (S len2) by lia. cbn [seqN app].
-        replace (r_a r + 1) with (r_w r) by lia. now apply filter_ext_called.
-      - destruct Fq as [Hq2 Hall]. rewrite Hq2. cbn [app filter]. symmetry. apply filter_none.
-        intros j Hj. apply Hall. lia. }
-    rewrite Hout. split; [reflexivity|]. rel_fields.
-    + exact Fn.
-    + reflexivity.
-    + intros j. rewrite !memN_app, Fc. reflexivity.
-    + lia.
-    + absurd_flag.
-    + intros _. split; reflexivity.
-    + reflexivity.
-    + exact Fnw.
+    destruct (lose_sim m r HR El) as [He HR'].
+    destruct (m_lose m) as [m' e1], (r_lose r) as [r' e2]. cbn [fst snd] in *. split; assumption.
+  - (* a reply whose callback hangs up *)
+    rewrite Hl. destruct (r_lost r) eqn:El; [exact I|]. cbn [orb].
+    destruct (Hlive eq_refl) as (Hcur & Hrest). rewrite Hcur.
+    destruct (r_a r <? r_w r) eqn:Hlt; cbn [negb]; [|exact I].
+    rewrite Hc. destruct (memN (r_a r) (r_res r)) eqn:Hmem.
+    + (* the caller had given up on it: a plain reply *)
+      destruct (reply_sim m r HR El Hlt) as [He HR'].
+      destruct (m_reply m (r_a r)) as [m' e1], (r_reply r) as [r' e2]. cbn [fst snd] in *. split; assumption.
+    + (* the loss, from the state in which the command is resolved and still in flight *)
+      set (mc := {| m_cur := Some (r_a r); m_q := m_q m; m_called := r_a r :: m_called m; m_lost := false;
+                    m_next := m_next m; m_obs := m_obs m; m_nobs := m_nobs m |}).
+      set (rc := {| r_n := r_n r; r_w := r_w r; r_a := r_a r; r_res := r_a r :: r_res r; r_lost := false;
+                    r_watch := r_watch r; r_nw := r_nw r |}).
+      assert (HRc : Rel mc rc).
+      { unfold mc, rc. rel_fields.
+        - exact Hn.
+        - reflexivity.
+        - intros j. cbn [memN]. now rewrite Hc.
+        - lia.
+        - intros _. rewrite Hlt. split; [reflexivity|exact Hrest].
+        - absurd_flag.
+        - exact Hobs.
+        - exact Hnobs. }
+      destruct (lose_sim mc rc HRc eq_refl) as [He HR'].
+      destruct (m_lose mc) as [m' e1], (r_lose rc) as [r' e2]. cbn [fst snd] in *. split; [now rewrite He|exact HR'].
 Qed.
 
 Lemma run_sim ops : forall m r, Rel m r -> m_run m ops = r_run r ops.
@@ -509,9 +552,116 @@ Qed.
 
 Ltac wf_fields := constructor; cbn [r_n r_res r_a r_w r_lost r_watch r_nw].
 
+Lemma reply_facts s : WF s -> r_lost s = false -> r_a s < r_w s ->
+  StepFacts s (snd (r_reply s)) (fst (r_reply s)).
+Proof.
+  intros [Wlt Wans [Wle1 Wle2] Wdead Wwlt Wwnd Wwdead] El Hlt. unfold r_reply. cbn [fst snd].
+    assert (Hids : flat_map ev_res ((if memN (r_a s) (r_res s) then [] else [QRes (r_a s) QOk]) ++
+                                   (if r_w s <? r_n s then [QWrote (r_w s)] else []))
+                   = if memN (r_a s) (r_res s) then [] else [r_a s]).
+    { destruct (memN (r_a s) (r_res s)); destruct (r_w s <? r_n s); reflexivity. }
+    assert (Hnotes : flat_map ev_note ((if memN (r_a s) (r_res s) then [] else [QRes (r_a s) QOk]) ++
+                                      (if r_w s <? r_n s then [QWrote (r_w s)] else [])) = []).
+    { destruct (memN (r_a s) (r_res s)); destruct (r_w s <? r_n s); reflexivity. }
+    apply nonote_step; cbn [r_n r_res r_a r_w r_lost r_watch r_nw]; try reflexivity; rewrite ?Hids.
+    + wf_fields.
+      * intros j. cbn [memN]. rewrite orb_true_iff, N.eqb_eq. intros [<-|Hj]; [lia|now apply Wlt].
+      * intros j Hj. cbn [memN]. destruct (N.eqb_spec (r_a s) j) as [|Hne]; [reflexivity|].
+        cbn [orb]. apply Wans. lia.
+      * destruct (N.ltb_spec (r_w s) (r_n s)); lia.
+      * intros Hx; discriminate Hx.
+      * exact Wwlt.
+      * exact Wwnd.
+      * intros Hx; discriminate Hx.
+    + destruct (memN (r_a s) (r_res s)); [constructor|constructor; [intros []|constructor]].
+    + intros j Hj. destruct (memN (r_a s) (r_res s)) eqn:E; [destruct Hj|].
+      destruct Hj as [<-|[]]. exact E.
+    + intros j. cbn [memN]. rewrite orb_true_iff, N.eqb_eq.
+      destruct (memN (r_a s) (r_res s)) eqn:E; cbn [In]; [|tauto].
+      split; [intros [<-|Hj]; [left; exact E|left; exact Hj]|intros [Hj|[]]; right; exact Hj].
+    + rewrite El. intros Hx; discriminate Hx.
+    + exact Hnotes.
+Qed.
+
+Lemma lose_facts s : WF s -> r_lost s = false -> StepFacts s (snd (r_lose s)) (fst (r_lose s)).
+Proof.
+  intros [Wlt Wans [Wle1 Wle2] Wdead Wwlt Wwnd Wwdead] El. unfold r_lose.
+  destruct (tell_fold_facts (r_a s <? r_w s) (r_watch s) [] (r_n s) (r_res s) (r_nw s) Wwlt Wwnd)
+    as (d & n' & res' & nw' & Hf & F).
+  rewrite Hf. cbn [app fst snd].
+    destruct F as [F1 F2 F3 F4 F5 F6 F7 F8 F9].
+    unfold unresolved.
+    set (out := filter (fun k => negb (memN k res')) (seqN (r_a s) (N.to_nat (n' - r_a s)))).
+    assert (Hout : forall j, In j out <-> (r_a s <= j < n' /\ memN j res' = false)).
+    { intros j. unfold out. rewrite filter_In, seqN_In, negb_true_iff.
+      split; intros [H1 H2]; (split; [lia|exact H2]). }
+    assert (Hres_ev : flat_map ev_res (d ++ map (fun k => QRes k QDisc) out) = flat_map ev_res d ++ out)
+      by (rewrite flat_map_app, res_of_disc; reflexivity).
+    assert (Hnote_ev : flat_map ev_note (d ++ map (fun k => QRes k QDisc) out) = flat_map ev_note d)
+      by (rewrite flat_map_app, note_of_disc, app_nil_r; reflexivity).
+    constructor; cbn [r_n r_res r_a r_w r_lost r_watch r_nw map fst In]; rewrite ?Hres_ev, ?Hnote_ev.
+    + wf_fields.
+      * intros j. rewrite memN_app, orb_true_iff, memN_In, Hout. intros [[Hj _]|Hj]; [lia|].
+        apply F5 in Hj. destruct Hj as [Hj|Hj]; [apply Wlt in Hj; lia|specialize (F4 j Hj); lia].
+      * intros j Hj. rewrite memN_app. replace (memN j res') with true; [apply orb_true_r|].
+        symmetry. apply F5. left. now apply Wans.
+      * lia.
+      * intros _ j Hj. rewrite memN_app, orb_true_iff, memN_In, Hout.
+        destruct (memN j res') eqn:E; [right; reflexivity|left].
+        split; [|reflexivity]. split; [|exact Hj].
+        destruct (N.lt_ge_cases j (r_a s)) as [Hlt|Hge]; [|exact Hge].
+        assert (Hx : memN j res' = true) by (apply F5; left; now apply Wans). rewrite Hx in E. discriminate E.
+      * intros w [].
+      * constructor.
+      * reflexivity.
+    + apply NoDup_app_disj; [exact F3|unfold out; apply NoDup_filter, seqN_NoDup|].
+      intros j Hj Hj2. apply Hout in Hj2. destruct Hj2 as [_ Hj2].
+      assert (Hx : memN j res' = true) by (apply F5; now right). rewrite Hx in Hj2. discriminate Hj2.
+    + intros j Hj. apply in_app_iff in Hj. destruct Hj as [Hj|Hj].
+      * specialize (F4 j Hj). destruct (memN j (r_res s)) eqn:E; [|reflexivity]. apply Wlt in E. lia.
+      * apply Hout in Hj. destruct Hj as [_ Hj]. destruct (memN j (r_res s)) eqn:E; [|reflexivity].
+        assert (Hx : memN j res' = true) by (apply F5; now left). rewrite Hx in Hj. discriminate Hj.
+    + intros j. rewrite memN_app, orb_true_iff, memN_In, F5, in_app_iff. tauto.
+    + rewrite El. intros Hx; discriminate Hx.
+    + exact F6.
+    + intros w Hw. apply F7 in Hw. exact Hw.
+    + intros w Hw [].
+    + exact F2.
+    + intros w [].
+    + intros w Hw. right. destruct (N.lt_ge_cases w (r_nw s)) as [Hlt|Hge].
+      * destruct (in_dec N.eq_dec w (map fst (r_watch s))) as [Hi|Hi].
+        -- left. apply F7. now left.
+        -- right. split; assumption.
+      * left. apply F7. right. lia.
+Qed.
+
+
+(* a command resolved by its reply, then a step from the state in which it is resolved *)
+Lemma resolved_then_facts s c ev s' :
+  memN c (r_res s) = false -> r_lost s = false ->
+  StepFacts {| r_n := r_n s; r_w := r_w s; r_a := r_a s; r_res := c :: r_res s; r_lost := false;
+               r_watch := r_watch s; r_nw := r_nw s |} ev s' ->
+  StepFacts s (QRes c QOk :: ev) s'.
+Proof.
+  intros Hm El [W C1 C2 C3 C4 N1 N2 N3 N4 N5 N6]. cbn [r_res r_lost r_watch r_nw] in *.
+  constructor; cbn [flat_map ev_res ev_note app].
+  - exact W.
+  - constructor; [|exact C1]. intros Hx. apply C2 in Hx. cbn [memN] in Hx. rewrite N.eqb_refl in Hx. discriminate Hx.
+  - intros k [<-|Hk]; [exact Hm|]. apply C2 in Hk. cbn [memN] in Hk. apply orb_false_iff in Hk. exact (proj2 Hk).
+  - intros k. rewrite C3. cbn [memN In]. rewrite orb_true_iff, N.eqb_eq. tauto.
+  - rewrite El. intros Hx; discriminate Hx.
+  - exact N1.
+  - exact N2.
+  - exact N3.
+  - exact N4.
+  - exact N5.
+  - exact N6.
+Qed.
+
 Lemma step_facts s o s' es : WF s -> r_step s o = Some (s', es) -> StepFacts s es s'.
 Proof.
-  intros [Wlt Wans [Wle1 Wle2] Wdead Wwlt Wwnd Wwdead] H. destruct o as [|k| |b|]; cbn [r_step] in H.
+  intros W H. pose proof W as [Wlt Wans [Wle1 Wle2] Wdead Wwlt Wwnd Wwdead].
+  destruct o as [|k| |b| |]; cbn [r_step] in H.
   - (* submit *)
     assert (Hnew : memN (r_n s) (r_res s) = false).
     { destruct (memN (r_n s) (r_res s)) eqn:E; [|reflexivity]. apply Wlt in E. lia. }
@@ -569,32 +719,7 @@ Proof.
   - (* reply *)
     destruct (r_lost s) eqn:El; [discriminate H|]. cbn [orb] in H.
     destruct (N.ltb_spec (r_a s) (r_w s)) as [Hlt|Hge]; cbn [negb] in H; [|discriminate H].
-    injection H as <- <-.
-    assert (Hids : flat_map ev_res ((if memN (r_a s) (r_res s) then [] else [QRes (r_a s) QOk]) ++
-                                   (if r_w s <? r_n s then [QWrote (r_w s)] else []))
-                   = if memN (r_a s) (r_res s) then [] else [r_a s]).
-    { destruct (memN (r_a s) (r_res s)); destruct (r_w s <? r_n s); reflexivity. }
-    assert (Hnotes : flat_map ev_note ((if memN (r_a s) (r_res s) then [] else [QRes (r_a s) QOk]) ++
-                                      (if r_w s <? r_n s then [QWrote (r_w s)] else [])) = []).
-    { destruct (memN (r_a s) (r_res s)); destruct (r_w s <? r_n s); reflexivity. }
-    apply nonote_step; cbn [r_n r_res r_a r_w r_lost r_watch r_nw]; try reflexivity; rewrite ?Hids.
-    + wf_fields.
-      * intros j. cbn [memN]. rewrite orb_true_iff, N.eqb_eq. intros [<-|Hj]; [lia|now apply Wlt].
-      * intros j Hj. cbn [memN]. destruct (N.eqb_spec (r_a s) j) as [|Hne]; [reflexivity|].
-        cbn [orb]. apply Wans. lia.
-      * destruct (N.ltb_spec (r_w s) (r_n s)); lia.
-      * intros Hx; discriminate Hx.
-      * exact Wwlt.
-      * exact Wwnd.
-      * intros Hx; discriminate Hx.
-    + destruct (memN (r_a s) (r_res s)); [constructor|constructor; [intros []|constructor]].
-    + intros j Hj. destruct (memN (r_a s) (r_res s)) eqn:E; [destruct Hj|].
-      destruct Hj as [<-|[]]. exact E.
-    + intros j. cbn [memN]. rewrite orb_true_iff, N.eqb_eq.
-      destruct (memN (r_a s) (r_res s)) eqn:E; cbn [In]; [|tauto].
-      split; [intros [<-|Hj]; [left; exact E|left; exact Hj]|intros [Hj|[]]; right; exact Hj].
-    + rewrite El. intros Hx; discriminate Hx.
-    + exact Hnotes.
+    pose proof (reply_facts s W El Hlt) as F. destruct (r_reply s) as [s1 e1]. injection H as <- <-. exact F.
   - (* a notification request *)
     destruct (r_lost s) eqn:El.
     + (* after the loss *)
@@ -656,53 +781,26 @@ Proof.
         -- left. apply in_app_iff. right. left. lia.
   - (* loss *)
     destruct (r_lost s) eqn:El; [discriminate H|].
-    destruct (tell_fold_facts (r_a s <? r_w s) (r_watch s) [] (r_n s) (r_res s) (r_nw s) Wwlt Wwnd)
-      as (d & n' & res' & nw' & Hf & F).
-    rewrite Hf in H. cbn [app] in H. injection H as <- <-.
-    destruct F as [F1 F2 F3 F4 F5 F6 F7 F8 F9].
-    unfold unresolved.
-    set (out := filter (fun k => negb (memN k res')) (seqN (r_a s) (N.to_nat (n' - r_a s)))).
-    assert (Hout : forall j, In j out <-> (r_a s <= j < n' /\ memN j res' = false)).
-    { intros j. unfold out. rewrite filter_In, seqN_In, negb_true_iff.
-      split; intros [H1 H2]; (split; [lia|exact H2]). }
-    assert (Hres_ev : flat_map ev_res (d ++ map (fun k => QRes k QDisc) out) = flat_map ev_res d ++ out)
-      by (rewrite flat_map_app, res_of_disc; reflexivity).
-    assert (Hnote_ev : flat_map ev_note (d ++ map (fun k => QRes k QDisc) out) = flat_map ev_note d)
-      by (rewrite flat_map_app, note_of_disc, app_nil_r; reflexivity).
-    constructor; cbn [r_n r_res r_a r_w r_lost r_watch r_nw map fst In]; rewrite ?Hres_ev, ?Hnote_ev.
-    + wf_fields.
-      * intros j. rewrite memN_app, orb_true_iff, memN_In, Hout. intros [[Hj _]|Hj]; [lia|].
-        apply F5 in Hj. destruct Hj as [Hj|Hj]; [apply Wlt in Hj; lia|specialize (F4 j Hj); lia].
-      * intros j Hj. rewrite memN_app. replace (memN j res') with true; [apply orb_true_r|].
-        symmetry. apply F5. left. now apply Wans.
-      * lia.
-      * intros _ j Hj. rewrite memN_app, orb_true_iff, memN_In, Hout.
-        destruct (memN j res') eqn:E; [right; reflexivity|left].
-        split; [|reflexivity]. split; [|exact Hj].
-        destruct (N.lt_ge_cases j (r_a s)) as [Hlt|Hge]; [|exact Hge].
-        assert (Hx : memN j res' = true) by (apply F5; left; now apply Wans). rewrite Hx in E. discriminate E.
-      * intros w [].
-      * constructor.
-      * reflexivity.
-    + apply NoDup_app_disj; [exact F3|unfold out; apply NoDup_filter, seqN_NoDup|].
-      intros j Hj Hj2. apply Hout in Hj2. destruct Hj2 as [_ Hj2].
-      assert (Hx : memN j res' = true) by (apply F5; now right). rewrite Hx in Hj2. discriminate Hj2.
-    + intros j Hj. apply in_app_iff in Hj. destruct Hj as [Hj|Hj].
-      * specialize (F4 j Hj). destruct (memN j (r_res s)) eqn:E; [|reflexivity]. apply Wlt in E. lia.
-      * apply Hout in Hj. destruct Hj as [_ Hj]. destruct (memN j (r_res s)) eqn:E; [|reflexivity].
-        assert (Hx : memN j res' = true) by (apply F5; now left). rewrite Hx in Hj. discriminate Hj.
-    + intros j. rewrite memN_app, orb_true_iff, memN_In, F5, in_app_iff. tauto.
-    + rewrite El. intros Hx; discriminate Hx.
-    + exact F6.
-    + intros w Hw. apply F7 in Hw. exact Hw.
-    + intros w Hw [].
-    + exact F2.
-    + intros w [].
-    + intros w Hw. right. destruct (N.lt_ge_cases w (r_nw s)) as [Hlt|Hge].
-      * destruct (in_dec N.eq_dec w (map fst (r_watch s))) as [Hi|Hi].
-        -- left. apply F7. now left.
-        -- right. split; assumption.
-      * left. apply F7. right. lia.
+    pose proof (lose_facts s W El) as F. destruct (r_lose s) as [s1 e1]. injection H as <- <-. exact F.
+  - (* a reply whose callback hangs up *)
+    destruct (r_lost s) eqn:El; [discriminate H|]. cbn [orb] in H.
+    destruct (N.ltb_spec (r_a s) (r_w s)) as [Hlt|Hge]; cbn [negb] in H; [|discriminate H].
+    destruct (memN (r_a s) (r_res s)) eqn:Hmem.
+    + pose proof (reply_facts s W El Hlt) as F. destruct (r_reply s) as [s1 e1]. injection H as <- <-. exact F.
+    + set (sc := {| r_n := r_n s; r_w := r_w s; r_a := r_a s; r_res := r_a s :: r_res s; r_lost := false;
+                    r_watch := r_watch s; r_nw := r_nw s |}) in H.
+      assert (Wc : WF sc).
+      { unfold sc. wf_fields.
+        - intros j. cbn [memN]. rewrite orb_true_iff, N.eqb_eq. intros [<-|Hj]; [lia|now apply Wlt].
+        - intros j Hj. cbn [memN]. rewrite (Wans j Hj). apply orb_true_r.
+        - lia.
+        - intros Hx; discriminate Hx.
+        - exact Wwlt.
+        - exact Wwnd.
+        - intros Hx; discriminate Hx. }
+      pose proof (lose_facts sc Wc eq_refl) as F.
+      destruct (r_lose sc) as [s1 ev]. injection H as <- <-. cbn [fst snd] in F.
+      exact (resolved_then_facts s (r_a s) ev s1 Hmem El F).
 Qed.
 
 Record ExecFacts (s : rstate) (tr : list (list qev)) (s' : rstate) : Prop := {
@@ -793,20 +891,30 @@ Proof.
   rewrite (W_wdead _ W Hl) in Hx. destruct Hx.
 Qed.
 
+(* the operations that are the loss: connectionLost itself, and a reply whose callback hangs up - unless the
+   caller had given up on that command before (then no callback runs: a plain reply) *)
+Definition loses (s : rstate) (o : qop) : bool :=
+  match o with QLose => true | QReplyLose => negb (memN (r_a s) (r_res s)) | _ => false end.
+
 Lemma step_lost s o s' es : r_step s o = Some (s', es) ->
-  (match o with QLose => r_lost s' = true | _ => True end) /\ (r_lost s = true -> r_lost s' = true).
+  (loses s o = true -> r_lost s' = true) /\ (r_lost s = true -> r_lost s' = true).
 Proof.
-  destruct o as [|k| |b|]; cbn [r_step]; intros H.
-  - destruct (r_lost s); [|destruct (r_w s =? r_a s)]; injection H as <- <-; cbn; (split; [exact I|auto]).
-  - destruct (_ && _); injection H as <- <-; cbn; (split; [exact I|auto]).
+  destruct o as [|k| |b| |]; cbn [r_step loses]; intros H.
+  - destruct (r_lost s); [|destruct (r_w s =? r_a s)]; injection H as <- <-; cbn; (split; [discriminate|auto]).
+  - destruct (_ && _); injection H as <- <-; cbn; (split; [discriminate|auto]).
   - destruct (r_lost s) eqn:El; cbn [orb] in H; [discriminate H|].
-    destruct (negb (r_a s <? r_w s)); [discriminate H|]. injection H as <- <-. cbn.
-    split; [exact I|intros Hx; discriminate Hx].
+    destruct (negb (r_a s <? r_w s)); [discriminate H|]. unfold r_reply in H. injection H as <- <-. cbn.
+    split; [discriminate|intros Hx; discriminate Hx].
   - destruct (r_lost s) eqn:El.
-    + destruct (tell false _ _) as [[[ev n] res] nw]. injection H as <- <-. cbn. split; [exact I|auto].
-    + injection H as <- <-. cbn. split; [exact I|intros Hx; discriminate Hx].
-  - destruct (r_lost s); [discriminate H|].
+    + destruct (tell false _ _) as [[[ev n] res] nw]. injection H as <- <-. cbn. split; [discriminate|auto].
+    + injection H as <- <-. cbn. split; [discriminate|intros Hx; discriminate Hx].
+  - destruct (r_lost s); [discriminate H|]. unfold r_lose in H.
     destruct (fold_left _ _ _) as [[[ev n] res] nw]. injection H as <- <-. cbn. split; auto.
+  - destruct (r_lost s) eqn:El; cbn [orb] in H; [discriminate H|].
+    destruct (negb (r_a s <? r_w s)); [discriminate H|].
+    destruct (memN (r_a s) (r_res s)); cbn [negb].
+    + split; [discriminate|intros Hx; discriminate Hx].
+    + unfold r_lose in H. destruct (fold_left _ _ _) as [[[ev n] res] nw]. injection H as <- <-. cbn. split; auto.
 Qed.
 
 Lemma exec_lost ops : forall s s' tr, r_exec s ops = Some (s', tr) ->
@@ -817,7 +925,8 @@ Proof.
   - destruct (r_step s o) as [[s1 es]|] eqn:E1; [|discriminate H].
     destruct (r_exec s1 ops) as [[s2 tr2]|] eqn:E2; [|discriminate H]. injection H as <- <-.
     destruct (step_lost s o s1 es E1) as (Hlose & Hkeep).
-    intros [[Ho|Hin]|Hl]; apply (IH s1 s2 tr2 E2); [right; subst o; exact Hlose|left; exact Hin|right; exact (Hkeep Hl)].
+    intros [[Ho|Hin]|Hl]; apply (IH s1 s2 tr2 E2);
+      [right; subst o; exact (Hlose eq_refl)|left; exact Hin|right; exact (Hkeep Hl)].
 Qed.
 
 Lemma r_exec_app a : forall s b,
@@ -842,25 +951,109 @@ Proof.
     cbn [length]. f_equal. exact (IH _ _ _ E2).
 Qed.
 
-(* from the loss on (its own operation excepted: nothing is written there either) nothing is written *)
-Theorem cancel_nothing_written_after_loss pre post tr :
-  q_ref (pre ++ QLose :: post) = Some tr -> quiet (concat (skipn (length pre) tr)) = true.
+(* the loss itself writes nothing *)
+Lemma lose_quiet s : (forall w, In w (map fst (r_watch s)) -> w < r_nw s) -> NoDup (map fst (r_watch s)) ->
+  quiet (snd (r_lose s)) = true.
 Proof.
-  unfold q_ref. rewrite r_exec_run, r_exec_app.
-  destruct (r_exec r_init pre) as [[s1 t1]|] eqn:E1; [|discriminate].
-  destruct (r_exec s1 (QLose :: post)) as [[s2 t2]|] eqn:E2; [|discriminate].
+  intros Hlt Hnd. unfold r_lose.
+  destruct (tell_fold_facts (r_a s <? r_w s) (r_watch s) [] (r_n s) (r_res s) (r_nw s) Hlt Hnd)
+    as (d & n' & res' & nw' & Hf & F).
+  rewrite Hf. cbn [app snd]. unfold quiet. rewrite forallb_app. apply andb_true_intro.
+  split; [exact (T_quiet _ _ _ _ _ _ _ _ _ F)|apply quiet_disc].
+Qed.
+
+Lemma loses_step_quiet s o s' es : WF s -> loses s o = true -> r_step s o = Some (s', es) -> quiet es = true.
+Proof.
+  intros W Hlo H. destruct o; cbn [loses] in Hlo; try discriminate Hlo; cbn [r_step] in H.
+  - destruct (r_lost s); [discriminate H|]. pose proof (lose_quiet s (W_wlt _ W) (W_wnd _ W)) as Hq.
+    destruct (r_lose s) as [s1 ev]. injection H as <- <-. exact Hq.
+  - destruct (r_lost s || negb (r_a s <? r_w s)); [discriminate H|]. apply negb_true_iff in Hlo. rewrite Hlo in H.
+    pose proof (lose_quiet {| r_n := r_n s; r_w := r_w s; r_a := r_a s; r_res := r_a s :: r_res s; r_lost := false;
+                             r_watch := r_watch s; r_nw := r_nw s |} (W_wlt _ W) (W_wnd _ W)) as Hq.
+    destruct (r_lose _) as [s1 ev]. injection H as <- <-. exact Hq.
+Qed.
+
+(* from the loss on (its own operation included) nothing is written; the loss is connectionLost or a reply whose
+   callback hangs up *)
+Theorem cancel_nothing_written_after_loss_gen pre o post s1 t1 tr :
+  r_exec r_init pre = Some (s1, t1) -> loses s1 o = true ->
+  q_ref (pre ++ o :: post) = Some tr -> quiet (concat (skipn (length pre) tr)) = true.
+Proof.
+  intros E1 Hlo. unfold q_ref. rewrite r_exec_run, r_exec_app, E1.
+  destruct (r_exec s1 (o :: post)) as [[s2 t2]|] eqn:E2; [|discriminate].
   cbn [option_map snd]. intros H. injection H as <-.
   rewrite <- (r_exec_length pre _ _ _ E1), skipn_app, Nat.sub_diag, skipn_all. cbn [app skipn].
-  cbn [r_exec] in E2. destruct (r_step s1 QLose) as [[sa es]|] eqn:Es; [|discriminate E2].
+  cbn [r_exec] in E2. destruct (r_step s1 o) as [[sa es]|] eqn:Es; [|discriminate E2].
   destruct (r_exec sa post) as [[sb tb]|] eqn:Eb; [|discriminate E2]. injection E2 as <- <-.
   assert (Wf1 : WF s1) by (exact (E_wf _ _ _ (exec_facts pre _ _ _ wf_init E1))).
   destruct (step_facts _ _ _ _ Wf1 Es) as [Wfa _ _ _ _ _ _ _ _ _ _].
-  assert (Hl : r_lost sa = true) by (exact (proj1 (step_lost _ _ _ _ Es))).
+  assert (Hl : r_lost sa = true) by (exact (proj1 (step_lost _ _ _ _ Es) Hlo)).
   cbn [concat]. unfold quiet. rewrite forallb_app. apply andb_true_intro. split.
-  - cbn [r_step] in Es. destruct (r_lost s1); [discriminate Es|].
-    destruct (tell_fold_facts (r_a s1 <? r_w s1) (r_watch s1) [] (r_n s1) (r_res s1) (r_nw s1)
-                (W_wlt _ Wf1) (W_wnd _ Wf1)) as (d & n' & res' & nw' & Hf & F).
-    rewrite Hf in Es. cbn [app] in Es. injection Es as <- <-.
-    rewrite forallb_app. apply andb_true_intro. split; [exact (T_quiet _ _ _ _ _ _ _ _ _ F)|apply quiet_disc].
+  - exact (loses_step_quiet _ _ _ _ Wf1 Hlo Es).
   - exact (proj2 (EC_quiet _ _ _ (exec_facts post _ _ _ Wfa Eb) Hl)).
+Qed.
+
+Theorem cancel_nothing_written_after_loss pre post tr :
+  q_ref (pre ++ QLose :: post) = Some tr -> quiet (concat (skipn (length pre) tr)) = true.
+Proof.
+  intros H. pose proof H as H0. unfold q_ref in H0. rewrite r_exec_run, r_exec_app in H0.
+  destruct (r_exec r_init pre) as [[s1 t1]|] eqn:E1; [|discriminate H0].
+  exact (cancel_nothing_written_after_loss_gen pre QLose post s1 t1 tr E1 eq_refl H).
+Qed.
+
+(* the loss is final, for both forms of the loss *)
+Theorem cancel_loss_is_final_gen pre o post s1 t1 s' tr :
+  r_exec r_init pre = Some (s1, t1) -> loses s1 o = true ->
+  r_exec r_init (pre ++ o :: post) = Some (s', tr) -> r_lost s' = true.
+Proof.
+  intros E1 Hlo. rewrite r_exec_app, E1. cbn [r_exec].
+  destruct (r_step s1 o) as [[sa es]|] eqn:Es; [|discriminate].
+  destruct (r_exec sa post) as [[sb tb]|] eqn:Eb; [|discriminate]. intros H. injection H as <- _.
+  exact (exec_lost post _ _ _ Eb (or_intror (proj1 (step_lost _ _ _ _ Es) Hlo))).
+Qed.
+
+(* ---- a reply whose callback hangs up ---- *)
+(* while a command is being processed the observers' callbacks resolve nobody and write nothing *)
+Lemma tell_true_fold ws : forall ev n res nw, exists d n' nw',
+  fold_left (tell true) ws (ev, n, res, nw) = (ev ++ d, n', res, nw') /\
+  flat_map ev_res d = [] /\ quiet d = true.
+Proof.
+  induction ws as [|[wid b] ws IH]; intros ev n res nw; cbn [fold_left].
+  - exists [], n, nw. rewrite app_nil_r. repeat split.
+  - unfold tell at 2. cbn [fst snd]. destruct b.
+    + destruct (IH (ev ++ [QNote wid]) n res nw) as (d & n' & nw' & Hf & H1 & H2).
+      exists (QNote wid :: d), n', nw'. rewrite Hf, <- app_assoc. repeat split; assumption.
+    + destruct (IH (ev ++ [QNote wid; QNote nw]) n res (nw + 1)) as (d & n' & nw' & Hf & H1 & H2).
+      exists (QNote wid :: QNote nw :: d), n', nw'. rewrite Hf, <- app_assoc. repeat split; assumption.
+    + destruct (IH (ev ++ [QNote wid]) (n + 1) res nw) as (d & n' & nw' & Hf & H1 & H2).
+      exists (QNote wid :: d), n', nw'. rewrite Hf, <- app_assoc. repeat split; assumption.
+Qed.
+
+(* in EVERY state: an effective QReplyLose (a command in flight that nobody has resolved) resolves that command
+   with its reply, then tells the observers (d: notifications only), then fails every later command that nobody
+   has resolved - those the observers' callbacks have just submitted included - exactly once, in submission
+   order; it writes nothing (r_w is unchanged: the next queued command is not sent) and the connection is lost *)
+Theorem cancel_replylose_fails_queue s s' es :
+  r_step s QReplyLose = Some (s', es) -> memN (r_a s) (r_res s) = false ->
+  exists d,
+    es = QRes (r_a s) QOk :: d ++
+         map (fun k => QRes k QDisc)
+             (filter (fun k => negb (memN k (r_res s)))
+                     (seqN (r_a s + 1) (N.to_nat (r_n s' - (r_a s + 1))))) /\
+    flat_map ev_res d = [] /\ quiet es = true /\ r_lost s' = true /\ r_w s' = r_w s.
+Proof.
+  cbn [r_step]. intros H Hm. destruct (r_lost s); [discriminate H|]. cbn [orb] in H.
+  destruct (r_a s <? r_w s) eqn:Hlt; cbn [negb] in H; [|discriminate H]. rewrite Hm in H.
+  unfold r_lose in H. cbn [r_a r_w r_n r_res r_watch r_nw] in H. rewrite Hlt in H.
+  destruct (tell_true_fold (r_watch s) [] (r_n s) (r_a s :: r_res s) (r_nw s)) as (d & n' & nw' & Hf & Hd1 & Hd2).
+  rewrite Hf in H. cbn [app] in H. injection H as <- <-. cbn [r_n r_lost r_w]. exists d.
+  assert (Hout : unresolved (r_a s :: r_res s) (r_a s) (N.to_nat (n' - r_a s))
+                 = filter (fun k => negb (memN k (r_res s))) (seqN (r_a s + 1) (N.to_nat (n' - (r_a s + 1))))).
+  { unfold unresolved. destruct (N.to_nat (n' - r_a s)) as [|len] eqn:E.
+    - replace (N.to_nat (n' - (r_a s + 1))) with 0%nat by lia. reflexivity.
+    - replace (N.to_nat (n' - (r_a s + 1))) with len by lia. cbn [seqN filter memN].
+      rewrite N.eqb_refl. cbn [orb negb]. apply filter_ext_in. intros k Hk. apply seqN_In in Hk.
+      cbn [memN]. destruct (N.eqb_spec (r_a s) k); [lia|reflexivity]. }
+  rewrite Hout. split; [reflexivity|]. split; [exact Hd1|]. split; [|split; reflexivity].
+  cbn [quiet forallb is_wrote negb andb]. unfold quiet in *. rewrite forallb_app, Hd2. apply quiet_disc.
 Qed.
